@@ -96,6 +96,17 @@ class SimRaw(io.RawIOBase):
 
     def readinto(self, buffer):
         self._fs.tick()
+        limit = self._fs.read_errors.get(self._path)
+        if limit is not None and self._pos + min(len(buffer), len(self._data) - self._pos) > limit:
+            if self._pos >= limit:
+                # the medium fails: every further read of this file ends in EIO
+                self._fs.stats["eio"] = self._fs.stats.get("eio", 0) + 1
+                self._fs.log.append(("eio", self._path))
+                raise OSError(errno.EIO, os.strerror(errno.EIO), self._path)
+            count = limit - self._pos
+            buffer[:count] = self._data[self._pos:self._pos + count]
+            self._pos += count
+            return count
         count = self._chunk(min(len(buffer), len(self._data) - self._pos))
         if count <= 0:
             return 0
@@ -144,6 +155,7 @@ class SimFS(object):
         self.ticks = 0
         self.step_cap = step_cap
         self.stats = {}
+        self.read_errors = {}  # path -> byte offset from which reads fail with EIO
         self.log = []  # (op, path)
 
     def tick(self):
